@@ -56,7 +56,7 @@ def build(repo, spec_dir, canary=False):
         b.emit('        forall|c: char| grex_%s(c) == regex_%s(c),' % (key, key))
         b.linemap[ln] = ('%s_tables_agree' % key, 'tables.%s' % key, ['C09'])
         b.emit('{}')
-        b.fn_ranges.append((first, b.lineno() - 1, '%s_tables_agree' % key, ['C09']))
+        b.fn_ranges.append((first, b.lineno() - 1, '%s_tables_agree' % key, ['C09'], 'tables.%s' % key))
         b.obligations.append(('tables.%s' % key, ['C09']))
         b.log.add('T', 'unicode_tables/%s' % key, '%d + %d ranges' % (len(g), len(r)), 'spec predicates')
     b.emit('} // verus!\nfn main() {}')
